@@ -9,10 +9,12 @@ import (
 	"fmt"
 	"io"
 	"strings"
+	"sync"
 	"time"
 
 	remoteexecution "github.com/bazelbuild/remote-apis/build/bazel/remote/execution/v2"
 	"github.com/buildbarn/bb-remote-execution/pkg/cas"
+	"github.com/buildbarn/bb-remote-execution/pkg/filesystem/access"
 	"github.com/buildbarn/bb-remote-execution/pkg/filesystem/pool"
 	"github.com/buildbarn/bb-remote-execution/pkg/filesystem/virtual"
 	"github.com/buildbarn/bb-storage/pkg/blobstore/buffer"
@@ -35,9 +37,13 @@ const (
 )
 
 type fakeCAS struct {
+	mu    sync.Mutex        // the naive build directory downloads from several goroutines
 	blobs map[string][]byte // private copy, compared against the catalogue at the end
 	isDir map[string]bool   // shared, read-only
 	fault int
+	// faultKind restricts the armed failure: 0 next Get, 1 next Get of a
+	// Directory, 2 next Get of a file.
+	faultKind int
 	// Number of injected failures that hit a Directory / a file request.
 	firedDir, firedFile int
 	gets                int
@@ -57,8 +63,10 @@ func (f *fakeCAS) fired() int { return f.firedDir + f.firedFile }
 
 func (f *fakeCAS) Get(ctx context.Context, d digest.Digest) buffer.Buffer {
 	key := casKey(d)
+	f.mu.Lock()
+	defer f.mu.Unlock()
 	f.gets++
-	if f.fault == faultArmed {
+	if f.fault == faultArmed && (f.faultKind == 0 || (f.faultKind == 1) == f.isDir[key]) {
 		f.fault = faultSpent
 		if f.isDir[key] {
 			f.firedDir++
@@ -80,6 +88,8 @@ func (f *fakeCAS) GetFromComposite(ctx context.Context, parentDigest, childDiges
 }
 
 func (f *fakeCAS) Put(ctx context.Context, d digest.Digest, b buffer.Buffer) error {
+	f.mu.Lock()
+	defer f.mu.Unlock()
 	f.puts = append(f.puts, d.String())
 	b.Discard()
 	return nil
@@ -269,3 +279,17 @@ func (sf *countingSymlinkFactory) LookupSymlink(target path.Parser) (virtual.Lin
 	sf.leaves = append(sf.leaves, l)
 	return l, nil
 }
+
+// ---------------------------------------------------------------------
+// Access monitor (the worker passes one when file system access profiling
+// is enabled): only counts.
+
+type fakeMonitor struct{ dirsRead, filesRead *int }
+
+func newFakeMonitor() *fakeMonitor { return &fakeMonitor{dirsRead: new(int), filesRead: new(int)} }
+
+func (m *fakeMonitor) ReadDirectory() access.ReadDirectoryMonitor { *m.dirsRead++; return m }
+func (m *fakeMonitor) ResolvedDirectory(name path.Component) access.UnreadDirectoryMonitor {
+	return m
+}
+func (m *fakeMonitor) ReadFile(name path.Component) { *m.filesRead++ }
